@@ -13,6 +13,18 @@ import (
 
 var theInterp *interpreter
 
+var callStack []*ssa.Function
+
+// TargetStack renders the interpreted call stack (innermost last).
+func TargetStack() string {
+	var sb strings.Builder
+	n := len(callStack)
+	for i := n - 1; i >= 0 && i >= n-25; i-- {
+		sb.WriteString("\n    at " + callStack[i].String())
+	}
+	return sb.String()
+}
+
 // FuncHits counts activations per SSA function (evidence: "functions encoded").
 var FuncHits = map[*ssa.Function]int{}
 
@@ -102,7 +114,8 @@ func NewInterp(prog *ssa.Program, main *ssa.Package, mode Mode) (err interface{}
 	theInterp = i
 	defer func() {
 		if r := recover(); r != nil {
-			err = describePanic(r)
+			err = fmt.Sprint(describePanic(r)) + TargetStack()
+			callStack = nil
 		}
 	}()
 	// initialisation runs concretely, outside any path
